@@ -2,6 +2,7 @@
 from __future__ import annotations
 
 import ast
+import copy
 from typing import Dict, List, Optional, Set, Tuple
 
 from ..core import AnalysisError, ClassInfo, FuncInfo, Index, call_name, calls_in, dotted, is_self_attr, norm, param_names, walk_local
@@ -724,8 +725,84 @@ def inlined(idx: Index, f: FuncInfo) -> ast.AST:
     # a worker that analyses one scratch tree after another then reads the inlined copy of a function of the PREVIOUS tree
     cache = idx.__dict__.setdefault("_inline_cache", {})
     if f.qualname not in cache:
-        cache[f.qualname] = inline_private_calls(idx, f)
+        cache[f.qualname] = _without_self_aliases(inline_private_calls(idx, f))
     return cache[f.qualname]
+
+
+def _without_self_aliases(fn_node: ast.AST) -> ast.AST:
+    """`resource = self.resource` ... `resource.read()`: a local that is bound ONCE in the function, to a plain attribute chain of `self`
+    that the function itself never assigns, is another spelling of that attribute ("hoist a repeated expression into a local").  The
+    rules that compare expressions (`self.resource` in do() with `self.resource` in undo()) read the function with such locals spelled
+    out again and their bindings removed."""
+    def chain_of_self(e) -> bool:
+        while isinstance(e, ast.Attribute):
+            e = e.value
+        return isinstance(e, ast.Name) and e.id == "self"
+
+    binds: Dict[str, List[ast.Assign]] = {}
+    other_stores: Set[str] = set()
+    stored_attrs: Set[str] = set()
+    for x in ast.walk(fn_node):
+        if isinstance(x, ast.Assign) and len(x.targets) == 1 and isinstance(x.targets[0], ast.Name):
+            binds.setdefault(x.targets[0].id, []).append(x)
+        elif isinstance(x, ast.Name) and isinstance(x.ctx, (ast.Store, ast.Del)):
+            other_stores.add(x.id)
+        if isinstance(x, ast.Attribute) and isinstance(x.ctx, (ast.Store, ast.Del)) and isinstance(x.value, ast.Name) and x.value.id == "self":
+            stored_attrs.add(x.attr)
+    plain_targets = {id(a.targets[0]) for lst in binds.values() for a in lst}
+    restored = {x.id for x in ast.walk(fn_node) if isinstance(x, ast.Name) and isinstance(x.ctx, (ast.Store, ast.Del)) and id(x) not in plain_targets}
+    params = {a.arg for a in getattr(fn_node, "args", ast.arguments(posonlyargs=[], args=[], kwonlyargs=[], kw_defaults=[], defaults=[])).args}
+    alias = {}
+    for name, lst in binds.items():
+        if len(lst) != 1 or name in restored or name in params:
+            continue
+        v = lst[0].value
+        # (only `self.<attr>` itself -- the reference to a collaborator; a field BEHIND it, `self.resource.newlines`, can be changed by any
+        # call in between, and a local bound to it is a snapshot, not another spelling)
+        if isinstance(v, ast.Attribute) and isinstance(v.value, ast.Name) and v.value.id == "self":
+            first = v
+            while isinstance(first.value, ast.Attribute):
+                first = first.value
+            if first.attr not in stored_attrs:
+                alias[name] = lst[0]
+    if not alias:
+        return fn_node
+    drop = {id(a) for a in alias.values()}
+
+    class _Spell(ast.NodeTransformer):
+        def visit_Name(self, n):
+            if isinstance(n.ctx, ast.Load) and n.id in alias:
+                return ast.copy_location(copy.deepcopy(alias[n.id].value), n)
+            return n
+
+        def generic_visit(self, node):
+            for fld in ("body", "orelse", "finalbody"):
+                blk = getattr(node, fld, None)
+                if isinstance(blk, list) and any(id(b) in drop for b in blk):
+                    kept = [b for b in blk if id(b) not in drop]
+                    setattr(node, fld, kept or [ast.copy_location(ast.Pass(), blk[0])])
+            return super().generic_visit(node)
+
+    out = _Spell().visit(fn_node)
+    ast.fix_missing_locations(out)
+    return out
+
+
+_REBOUND_COUNTER = [0]
+
+
+def _rebound_params(env, h_node) -> list:
+    """A helper that RE-BINDS one of its parameters (`while ...: scope = scope.parent`) works on its own local: substituting the argument
+    expression for the reads alone would leave the stores behind.  Such a parameter gets a fresh local (`_inl_p_<k>_<name> = <argument>`),
+    which the substitution then uses for reads and stores alike; returns the binding statements to put in front of the helper's body."""
+    stored = {x.id for x in ast.walk(h_node) if isinstance(x, ast.Name) and isinstance(x.ctx, ast.Store)}
+    pre = []
+    for p_ in [k for k in env if k in stored]:
+        _REBOUND_COUNTER[0] += 1
+        fresh = f"_inl_p_{_REBOUND_COUNTER[0]}_{p_}"
+        pre.append(ast.fix_missing_locations(ast.copy_location(ast.Assign(targets=[ast.Name(id=fresh, ctx=ast.Store())], value=copy.deepcopy(env[p_])), h_node)))
+        env[p_] = ast.Name(id=fresh, ctx=ast.Load())
+    return pre
 
 
 def inline_private_calls(idx: Index, f: FuncInfo, depth: int = 2, keep=()) -> ast.AST:
@@ -827,10 +904,13 @@ def inline_private_calls(idx: Index, f: FuncInfo, depth: int = 2, keep=()) -> as
                                 else:
                                     ok = False
                         if ok:
+                            out.extend(_rebound_params(env, h.node))
                             class Sub(ast.NodeTransformer):
                                 def visit_Name(self, n):
                                     if n.id in env and isinstance(n.ctx, ast.Load):
                                         return copy.deepcopy(env[n.id])
+                                    if n.id in env and isinstance(n.ctx, ast.Store) and isinstance(env[n.id], ast.Name) and env[n.id].id.startswith("_inl_p_"):
+                                        return ast.copy_location(ast.Name(id=env[n.id].id, ctx=ast.Store()), n)  # a parameter the helper re-binds: its own local
                                     return n
                             body = [Sub().visit(copy.deepcopy(b)) for b in (h_body_override if h_body_override is not None else h.node.body)
                                     if not (isinstance(b, ast.Expr) and isinstance(b.value, ast.Constant)) and not isinstance(b, ast.Return)]
@@ -881,6 +961,8 @@ def inline_private_calls(idx: Index, f: FuncInfo, depth: int = 2, keep=()) -> as
                                 def visit_Name(self, n):
                                     if n.id in env and isinstance(n.ctx, ast.Load):
                                         return copy.deepcopy(env[n.id])
+                                    if n.id in env and isinstance(n.ctx, ast.Store) and isinstance(env[n.id], ast.Name) and env[n.id].id.startswith("_inl_p_"):
+                                        return ast.copy_location(ast.Name(id=env[n.id].id, ctx=ast.Store()), n)  # a parameter the helper re-binds: its own local
                                     return n
 
                                 def visit_Expr(self, n):
@@ -955,10 +1037,13 @@ def inline_private_calls(idx: Index, f: FuncInfo, depth: int = 2, keep=()) -> as
                             return bool(block) and isinstance(block[-1], (ast.Return, ast.Raise))
 
                         if ok:
+                            out.extend(_rebound_params(env, h.node))
                             class Sub3(ast.NodeTransformer):
                                 def visit_Name(self, n):
                                     if n.id in env and isinstance(n.ctx, ast.Load):
                                         return copy.deepcopy(env[n.id])
+                                    if n.id in env and isinstance(n.ctx, ast.Store) and isinstance(env[n.id], ast.Name) and env[n.id].id.startswith("_inl_p_"):
+                                        return ast.copy_location(ast.Name(id=env[n.id].id, ctx=ast.Store()), n)  # a parameter the helper re-binds: its own local
                                     return n
                             hb = [Sub3().visit(copy.deepcopy(b)) for b in h.node.body
                                   if not (isinstance(b, ast.Expr) and isinstance(b.value, ast.Constant))]
@@ -991,10 +1076,13 @@ def inline_private_calls(idx: Index, f: FuncInfo, depth: int = 2, keep=()) -> as
                                 else:
                                     ok = False
                         if ok:
+                            out.extend(_rebound_params(env, h.node))
                             class Sub2(ast.NodeTransformer):
                                 def visit_Name(self, n):
                                     if n.id in env and isinstance(n.ctx, ast.Load):
                                         return copy.deepcopy(env[n.id])
+                                    if n.id in env and isinstance(n.ctx, ast.Store) and isinstance(env[n.id], ast.Name) and env[n.id].id.startswith("_inl_p_"):
+                                        return ast.copy_location(ast.Name(id=env[n.id].id, ctx=ast.Store()), n)  # a parameter the helper re-binds: its own local
                                     return n
                             hb = [Sub2().visit(copy.deepcopy(b)) for b in h.node.body
                                   if not (isinstance(b, ast.Expr) and isinstance(b.value, ast.Constant))]
